@@ -359,7 +359,7 @@ itemized :class:`typing.Tuple` type of the form ``typing.Tuple[{typename1},
 
 CODE_PEP484585_TUPLE_FIXED_EMPTY = '''
 {{indent_curr}}    # True only if this tuple is empty.
-{{indent_curr}}    not {pith_curr_var_name} and'''
+{{indent_curr}}    not len({pith_curr_var_name}) and'''
 '''
 :pep:`484`- and :pep:`585`-compliant code snippet prefixing all code
 type-checking the current pith to be empty against an itemized
